@@ -224,6 +224,39 @@ def page_cases(ctx, r, h, n, label):
     return cases
 
 
+def lkey_cases(ctx, r, n):
+    """one node whose keys share the 115 bytes a node caches of its first key (lengths 113..119): the first key is deleted again
+    and again, every remaining key must still be found (the cache and its full-key flag are refreshed from the next key)"""
+    cases = []
+    for _ in range(n):
+        fl = r.choice([0, 0, G.COMPOUND])
+        pre = bytes(r.randrange(1, 256) for _ in range(r.choice([113, 114, 115, 115, 116])))
+        keys = {pre + bytes(r.randrange(1, 256) for _ in range(r.choice([0, 1, 1, 2, 3, 4]))) for _ in range(r.choice([3, 5, 8]))}
+        keys = sorted(keys)
+        comp = (lambda: r.randrange(0, 3)) if fl & G.COMPOUND else (lambda: 0)
+        recs = [(k, comp()) for k in keys]
+        ops = ["open %d 1 0" % r.randrange(2), "db 1 %d" % fl]
+        order = list(recs)
+        r.shuffle(order)
+        for k, c in order:
+            ops.append("put 1 %s %d %s 0 0" % (G.H(k), c, G.H(G.gen_value(r, big=False))))
+        live = sorted(set(recs), reverse=True)            # store order: greatest first
+        while len(live) > 1:
+            k, c = live.pop(0) if r.random() < 0.8 else live.pop(r.randrange(len(live)))
+            ops.append("del 1 %s %d" % (G.H(k), c))
+            for k2, c2 in live:
+                ops.append("get 1 %s %d" % (G.H(k2), c2))
+            if r.random() < 0.3:
+                ops.append("put 1 %s %d %s 0 0" % (G.H(k), c, G.H(G.gen_value(r, big=False))))
+                live = sorted(set(live + [(k, c)]), reverse=True)
+                if len(ops) > 400:
+                    break
+        ops += ["dump 1", "close"]
+        ctx.hist("lkey-case")
+        cases.append(make_case(r, 0, ops=ops))
+    return cases
+
+
 def explore(ctx, h, drv, nhist, nops, label, exactfit=0, pages=0, **kw):
     r = C.Rng(ctx.seed, "c01/" + label)
     cases = [make_case(r, nops, **kw) for _ in range(nhist)]
@@ -231,6 +264,8 @@ def explore(ctx, h, drv, nhist, nops, label, exactfit=0, pages=0, **kw):
         cases += exactfit_cases(ctx, r, h, exactfit, label)
     if pages:
         cases += page_cases(ctx, r, h, pages, label)
+    if exactfit:
+        cases += lkey_cases(ctx, r, max(6, exactfit // 2))
     for c in cases[:2]:
         ctx.sample(dict(kind="history", first_ops=c.ops[:12], n_ops=len(c.ops)))
     for c in cases:
